@@ -13,6 +13,18 @@ CHECKS = {
         note="trusts pandas for executing partition tasks, the own executor (dask.core semantics), and the comparator's order/index freedom derived from static flags",
         ref="§3 C01",
     ),
+    "C03": dict(
+        technique="bounded-exhaustive property-based enumeration of predicate trees over a full valuation table, crossed with filter-crossing contexts and the join legality table; pandas as reference model",
+        text="Every predicate tree up to the bound is evaluated under all valuations (true/false/missing) of its atoms in every context a filter can be moved across; the rows returned after optimize() must be exactly the pandas selection (rid multisets, two-sided). Exhaustive inside the stated formula/context box only.",
+        note="pandas boolean semantics are the reference; leftsemi reference defined in the check; reader pushdown is covered by C18",
+        ref="§3 C03",
+    ),
+    "C10": dict(
+        technique="metamorphic + reference-model property-based testing over knob grids (split_every, split_out, shuffle method, max_branch, broadcast, npartitions, upsample, fuse)",
+        text="Each query family is executed under a grid of execution knobs on both sides of the algorithm-selection thresholds; every grid point must equal the pandas result (row order/layout ignored; sort outputs validated as ordered permutations). Bounded grid, deterministic subsample in the quick tier.",
+        note="p2p unreachable; float tolerance 1e-9; drop_duplicates(subset=) judged by a validity predicate",
+        ref="§3 C10",
+    ),
     "C04": dict(
         technique="differential + metamorphic property-based testing (widening sources with unused columns; Hypothesis programs + templates)",
         text="Projection-heavy generated programs: every stage vs the unoptimized lowering, and the metamorphic relation 'extra unused source columns never change the result' in two variants (source-projected, end-projected). Bounded exploration.",
